@@ -135,8 +135,74 @@ VTotal(r) ==
     ELSE IF Has(r, "strok") /\ ~r.strok THEN Rej("C13 the string form of the error can not be produced", <<r.cls>>)
     ELSE Acc
 
+(* ---- locations, normalized paths, re-query (C08) ---------------------------- *)
+\* r.loc: node.location; r.path: node.path(); r.rout/r.rlocs: find(path, doc);
+\* r.vok: following r.loc from the root reaches the very object in node.value;
+\* r.lists: values()/paths()/items() of the nodelist agree with its nodes
+VRequery(r) ==
+    IF ~r.vok THEN Rej("C08 node value is not the object at its location", <<>>)
+    ELSE IF Locate(r.doc, r.loc) = <<>> THEN Rej("C08 location does not exist in the document", <<>>)
+    ELSE IF r.path # NormalizedPath(r.loc) THEN Rej("C08 path() is not the normalized path of the location", <<>>)
+    ELSE IF r.rout # "ok" THEN Rej("C08 the normalized path does not compile or evaluate", <<r.cls>>)
+    ELSE IF r.rlocs # <<r.loc>> THEN Rej("C08 re-querying the normalized path does not return exactly that node", <<>>)
+    ELSE IF ~r.lists THEN Rej("C08 values()/paths()/items() disagree with the nodes", <<>>)
+    ELSE Acc
+
+\* how the normalized path spells one code point of a member name
+PathForm(cp) ==
+    LET t == NormChar(cp)
+    IN  IF t = <<cp>> THEN "raw"
+        ELSE IF Len(t) = 2 THEN "esc"
+        ELSE "u00xx"
+\* r.lo..r.hi: a range of code points on which the implementation behaved uniformly:
+\* r.form: how path() spelled the character (raw / esc / u00xx, harness-classified
+\* against the exact text), r.exact: the spelled text is the one NormChar gives,
+\* r.requery: the path re-queried to exactly that node
+VCpRange(r) ==
+    IF \E cp \in r.lo..r.hi : PathForm(cp) # r.form
+    THEN Rej("C08 normalized path spells a member-name character in the wrong form", <<r.lo, r.hi, r.form>>)
+    ELSE IF ~r.exact THEN Rej("C08 normalized path text differs from the canonical spelling", <<r.lo, r.hi>>)
+    ELSE IF ~r.requery THEN Rej("C08 re-querying the normalized path fails for a member-name character", <<r.lo, r.hi>>)
+    ELSE Acc
+
+(* ---- string literal decoding (C09) ------------------------------------------- *)
+\* r.text: a candidate string literal (with its quotes); r.res: "rejected" or "decoded",
+\* r.val: the decoded code points, as observed through name selection and comparison
+VLit(r) ==
+    LET d  == IF r.text # <<>> /\ (r.text[1] = 39 \/ r.text[1] = 34) THEN StringLit(r.text, 1) ELSE Fail(1, "no quote")
+        ok == d.ok /\ d.i = Len(r.text) + 1
+    IN  IF ok /\ r.res # "decoded" THEN Rej("C09 valid string literal rejected", <<r.cls>>)
+        ELSE IF ~ok /\ r.res = "decoded" THEN Rej("C09 invalid string literal accepted", <<d.why>>)
+        ELSE IF ok /\ r.val # d.v THEN Rej("C09 string literal decoded to other code points", <<ToJson(d.v)>>)
+        ELSE Acc
+
+HexDigit(d, upper) == IF d < 10 THEN 48 + d ELSE IF upper THEN 55 + d ELSE 87 + d
+U4(v, upper) == <<92, 117, HexDigit(v \div 4096, upper), HexDigit((v \div 256) % 16, upper),
+                  HexDigit((v \div 16) % 16, upper), HexDigit(v % 16, upper)>>
+\* the literal spelling code point cp in the given form
+FormText(form, cp, q) ==
+    CASE form = "raw"  -> <<q, cp, q>>
+      [] form = "u4l"  -> <<q>> \o U4(cp, FALSE) \o <<q>>
+      [] form = "u4u"  -> <<q>> \o U4(cp, TRUE) \o <<q>>
+      [] form = "pair" -> <<q>> \o U4(55296 + ((cp - 65536) \div 1024), TRUE)
+                               \o U4(56320 + ((cp - 65536) % 1024), FALSE) \o <<q>>
+\* r.lo..r.hi: code points on which the implementation behaved uniformly for r.form / r.quote:
+\* r.res = "self" (decoded to exactly that code point) or "rejected"
+VLitRange(r) ==
+    LET bad == {cp \in r.lo..r.hi :
+                   LET t == FormText(r.form, cp, r.quote)
+                       d == StringLit(t, 1)
+                       self == d.ok /\ d.i = Len(t) + 1 /\ d.v = <<cp>>
+                   IN  (IF self THEN "self" ELSE "rejected") # r.res}
+    IN  IF bad # {} THEN Rej("C09 code point range decoded wrongly", <<r.form, r.quote, r.res, CHOOSE x \in bad : TRUE>>)
+        ELSE Acc
+
 Verdict(r) ==
     CASE r.op = "compile" -> VCompile(r)
+      [] r.op = "lit"      -> VLit(r)
+      [] r.op = "litrange" -> VLitRange(r)
+      [] r.op = "requery" -> VRequery(r)
+      [] r.op = "cprange" -> VCpRange(r)
       [] r.op = "total"   -> VTotal(r)
       [] r.op = "errpos"  -> VErrPos(r)
       [] r.op = "str"     -> VStr(r)
